@@ -108,12 +108,74 @@ class Dirs(Family):
         return 'generic' not in cell
 
 
+class Reuse(Family):
+    """Vector/Vector scenes evaluated on two *persistent* Vector objects whose coordinates are
+    re-assigned in place (``v[i] = c``) between scenes, so every query runs after earlier
+    queries and an in-place mutation (a stale cached length / direction shows up here)."""
+
+    def __init__(self, us, vs_fn, chunk=16):
+        self.name = 'reuse-in-place'
+        self.us, self.vs_fn = us, vs_fn
+        self._shards = [(i, min(i + chunk, len(us))) for i in range(0, len(us), chunk)]
+        self._a = self._b = None
+
+    def shards(self):
+        return self._shards
+
+    def scenes(self, shard):
+        self._a = lib.V((1, 0, 0))
+        self._b = lib.V((0, 1, 0))
+        for u in self.us[shard[0]:shard[1]]:
+            for v in self.vs_fn(u):
+                yield ('Vector,Vector', u, v)
+
+    def eval(self, s):
+        return eval_reuse(self, s[1], s[2])
+
+    def nontrivial(self, cell):
+        return 'generic' not in cell
+
+
+def eval_reuse(fam, u, v):
+    if fam._a is None:
+        fam._a, fam._b = lib.V((1, 0, 0)), lib.V((0, 1, 0))
+        for fn in (angle, parallel, orthogonal):
+            lib.call(fn, fam._a, fam._b)
+    a, b = fam._a, fam._b
+    for i in range(3):
+        a[i] = float(u[i])
+        b[i] = float(v[i])
+    c = X.cross(u, v)
+    duv = X.dot(u, v)
+    par, orth = X.is_zero(c), duv == 0
+    cos2 = F(duv * duv, X.n2(u) * X.n2(v))
+    theta = math.acos(min(1.0, math.sqrt(cos2)))
+    rel = 'parallel' if par else ('orthogonal' if orth else 'generic')
+    viols = []
+    for op, fn, exp in (('angle', angle, theta), ('parallel', parallel, par), ('orthogonal', orthogonal, orth)):
+        for form, th in (('fn', lambda: fn(a, b)), ('fn-swapped', lambda: fn(b, a))):
+            r = lib.call(th)
+            bad = None
+            if isinstance(r, lib.Raised):
+                bad = 'raises:' + r.cls
+            elif op == 'angle':
+                if isinstance(r, bool) or not isinstance(r, (int, float)) or abs(r - exp) > 1e-7:
+                    bad = 'wrong-value'
+            elif r is not exp and not (isinstance(r, bool) and r == exp):
+                bad = 'wrong-bool'
+            if bad:
+                viols.append(Viol('C11|%s|%s|Vector,Vector|%s|%s-after-in-place-reassignment' % (op, form, rel, bad), core.enc(('reuse', u, v)), exp,
+                                  lib.describe(r), '%s on a Vector whose coordinates were re-assigned in place after earlier queries' % op))
+    return 'Vector,Vector|reuse|' + rel, viols
+
+
 def families(tier):
     if tier == 'quick':
         special = lambda u: [v for v in A.D3ALL if X.is_zero(X.cross(u, v)) or X.dot(u, v) == 0]
         return [Dirs('D2xD2', lambda u: A.D2, A.D2),
-                Dirs('D3-special', special, A.D3ALL, chunk=24)]
-    return [Dirs('D3xD3', lambda u: A.D3ALL, A.D3ALL, chunk=6)]
+                Dirs('D3-special', special, A.D3ALL, chunk=24),
+                Reuse(A.D2, lambda u: A.D2)]
+    return [Dirs('D3xD3', lambda u: A.D3ALL, A.D3ALL, chunk=6), Reuse(A.D3ALL, lambda u: A.D3ALL, chunk=8)]
 
 
 def run(tier, seed):
@@ -126,5 +188,11 @@ def run(tier, seed):
 
 
 def replay(family, scene):
-    combo, u, v = core.dec(scene)
+    sc = core.dec(scene)
+    if sc[0] == 'reuse':
+        # a single scene cannot show a stale cache: replay it after a priming scene
+        fam = Reuse([(1, 0, 0)], lambda u: [(0, 1, 0)])
+        eval_reuse(fam, (2, 0, 0), (0, 3, 0))
+        return eval_reuse(fam, sc[1], sc[2])[1]
+    combo, u, v = sc
     return eval_scene(family, combo, u, v)[1]
